@@ -113,6 +113,8 @@ def run(chk):
                     op['worker_exit_timeout'] = 60.0
             if op.get('init') and sc['pool']['start_method'] == 'fork' and rng.random() < .3:
                 op['worker_init_timeout'] = 60.0
+            if op.get('exit') and rng.random() < .3:
+                op['exit_none'] = rng.choice(['all', 'even'])      # a worker_exit that returns None: that is the value it returned
         sc['all_valid'] = False
         sc['pool'].pop('keep_alive', None)
         scs.append(sc)
